@@ -61,7 +61,7 @@ PROBE_RESULT = {k: _probe(v) for k, v in PROBES.items()}
 # parallel (harness/c07.cpp: -DC07_PART=k) by run() below; check.py then compiles main() and links them.
 BASE_FLAGS = ["-std=c++23", "-O0"] + ["-D%s=%d" % kv for kv in sorted(PROBE_RESULT.items())]
 HARNESS_FLAGS = list(BASE_FLAGS)
-NPARTS = 11
+NPARTS = 19
 
 
 def _build_parts():
@@ -187,6 +187,8 @@ TRUSTED = ["hand model Tetl/C07/Model.lean tied to the source by the corresponde
 T = "Tetl.C07.Props."
 THEOREMS = {
     "vcat": [], "ocat": [], "ecat": [],
+    "mvis": [T + "visitN_active", T + "visit_dispatch", T + "visit_flat_key_counterexample", T + "visit_flat_key_collides",
+             T + "visit_flat_key_ok_of_sorted"],
     "visit": [T + "visit_dispatch", T + "visit1_active", T + "visit2_active"], "visitp": [T + "visit_dispatch"],
     "emplace": [T + "step_refines_partial", T + "run_refines_partial", T + "optional_refines", T + "expected_refines_partial"],
     "make": [T + "step_refines_partial", T + "run_refines_partial"],
@@ -403,6 +405,69 @@ def gen_sel_exhaustive(add, thorough):
             add([new("sel")] + ["sel a=%s alts=%s how=%s" % (a, alts, how) for a in SEL_ARGS], "sel/" + alts)
 
 
+# visit over arguments of different types (`new kind=mv`): argument kinds 0 = non-variant int, 1..4 = variant with that many
+# alternatives; MV_SIZE[k] = variant_size of kind k
+MV_SIZE = [1, 1, 2, 3, 4]
+MV_Q6 = [(0, 0), (1, 1), (2, 2), (3, 3), (0, 2), (3, 1)]
+MV_Q3 = [(1, 1, 1), (2, 0, 3)]
+MV_K4 = [(3, 2, 2, 3), (2, 2, 3, 3)]
+
+
+def mv_kinds(arity):
+    """the kind tuples the harness compiles (harness/c07.cpp mv_ok3, Driver.mvOK)"""
+    if arity == 1:
+        return [(k,) for k in range(5)]
+    if arity == 2:
+        return list(itertools.product(range(5), repeat=2))
+    if arity == 3:
+        r = []
+        for ks in itertools.product(range(4), repeat=3):
+            z = ks.count(0)
+            if (z == 0) or (z == 1 and all(k in (0, 2, 3) for k in ks)):
+                r.append(ks)
+        return r
+    return list(MV_K4)
+
+
+def mv_cats(ks):
+    """the value-category tuples compiled for a kind tuple (mv_ok2 of the harness)"""
+    if len(ks) == 1:
+        return [(q,) for q in range(4)]
+    if len(ks) == 2:
+        return list(itertools.product(range(4), repeat=2)) if ks in ((3, 2), (2, 3)) else list(MV_Q6)
+    if len(ks) == 3:
+        return list(MV_Q3)
+    return [(0, 1, 2, 3)]
+
+
+def mv_line(ks, acts, vals, qs, idx):
+    return "mvis k=%s act=%s v=%s q=%s idx=%d" % (fmt_list(list(ks)), fmt_list(list(acts)), fmt_list(list(vals)), fmt_list(list(qs)), idx)
+
+
+def gen_mv_exhaustive(add, thorough):
+    """every tuple of argument kinds (alternative counts 1..4 x 1..4, 1..3 cubed, a non-variant argument in every position, two
+    lists of four) x EVERY tuple of active indices x visit / visit_with_index, per tuple of value categories"""
+    for arity in (1, 2, 3, 4):
+        for ks in mv_kinds(arity):
+            vals = [5 + j for j in range(arity)]
+            for qs in mv_cats(ks):
+                lines = [new("mv")]
+                for acts in itertools.product(*[range(MV_SIZE[k]) for k in ks]):
+                    for idx in (0, 1):
+                        lines.append(mv_line(ks, acts, vals, qs, idx))
+                add(lines, "mv-visit%d/%s" % (arity, "".join(map(str, ks))))
+
+
+def rand_mv(rnd, length):
+    lines = [new("mv")]
+    for _ in range(length):
+        arity = rnd.choice([1, 2, 2, 2, 3, 3, 4])
+        ks = rnd.choice(mv_kinds(arity))
+        lines.append(mv_line(ks, [rnd.randrange(MV_SIZE[k]) for k in ks], [rnd.randrange(0, 40) for _ in ks],
+                             rnd.choice(mv_cats(ks)), rnd.randrange(2)))
+    return lines
+
+
 def rand_var(rnd, alts, length):
     n = 3
     lines = [new("var", alts, n)]
@@ -537,11 +602,14 @@ def generate(tier, seed):
     gen_opt_exhaustive(add, thorough)
     gen_exp_exhaustive(add, thorough)
     gen_sel_exhaustive(add, thorough)
+    gen_mv_exhaustive(add, thorough)
     nr = 150000 if thorough else 3000
     for _ in range(nr):
         ln = rnd.randint(10, 30)
         r = rnd.random()
-        if r < 0.45:
+        if r < 0.05:
+            add(rand_mv(rnd, ln), "random-mv")
+        elif r < 0.45:
             add(rand_var(rnd, rnd.choice(VAR_CFGS), ln), "random-var")
         elif r < 0.75:
             add(rand_opt(rnd, rnd.choice(OPT_CFGS), ln), "random-opt")
@@ -566,6 +634,8 @@ def _state(out):
 def nontrivial(case, rows):
     if case.lines[0].startswith("new kind=sel"):        # no state: non-trivial = some argument kind selects an alternative
         return any(not r.spec.startswith("nc") for r in rows[1:])
+    if case.lines[0].startswith("new kind=mv"):         # no state: non-trivial = some argument holds another alternative than the first
+        return any(re.search(r"act=\[[^\]]*[1-9]", ln) for ln in case.lines[1:])
     s0 = _state(rows[0].spec)
     return any(_state(r.spec) != s0 for r in rows[1:])
 
